@@ -583,4 +583,90 @@ theorem elemSteps_map_toElem (val : ο → Nat) (errId : τ → Nat) (terminal :
   | nil => rfl
   | cons o l ih => cases o <;> simp [Streams.elemSteps, toElem, toRes, ih]
 
+/-- Whether the last poll of a run answered `Ready(None)` (what a consumer — the reconnecting
+stream of C12 — sees as "this connection ended"). -/
+def endedBy {α : Type} (rs : List (PollRes α)) : Bool :=
+  match rs.getLast? with
+  | some (.ready none) => true
+  | _ => false
+
+theorem endedBy_append_replicate {α : Type} (l : List (PollRes α)) (k : Nat) (x : PollRes α) :
+    endedBy (l ++ List.replicate (k + 1) x) = (match x with | .ready none => true | _ => false) := by
+  unfold endedBy
+  have : (l ++ List.replicate (k + 1) x).getLast? = some x := by
+    rw [List.getLast?_append]
+    simp [List.getLast?_replicate]
+  rw [this]
+  cases x with
+  | pending => rfl
+  | ready o => cases o <;> rfl
+
+theorem endedBy_exhausted (ended : Bool) (l : List (PollRes (Except τ ο))) (k : Nat) :
+    endedBy (l ++ List.replicate (k + 1) (exhausted ended)) = ended := by
+  rw [endedBy_append_replicate]
+  cases ended <;> rfl
+
+/-! ## numerals with very large exponents (`parseNumberParts`, `parseF64Fast`) -/
+
+theorem parseNumber_unfold (cs : List Char) :
+    parseNumber cs =
+      (let ip := (cs.span isDigit).1
+       let t := fracSplit (cs.span isDigit).2
+       if ip.isEmpty && t.1.isEmpty then none else
+       match parseExp t.2.1 with
+       | none => none
+       | some e => some ((natOfDigits (ip ++ t.1) : Rat) * pow10Rat (e - t.1.length))) := by
+  unfold parseNumber fracSplit
+  rfl
+
+theorem parts_aux (ip fp r2 : List Char) :
+    (if (ip.isEmpty && fp.isEmpty) = true then (none : Option Rat) else
+      match parseExp r2 with
+      | none => none
+      | some e => some ((natOfDigits (ip ++ fp) : Rat) * pow10Rat (e - fp.length))) =
+    Option.map (fun p : List Char × Int => (natOfDigits p.1 : Rat) * pow10Rat p.2)
+      (if (ip.isEmpty && fp.isEmpty) = true then none else
+        match parseExp r2 with
+        | none => none
+        | some e => some (ip ++ fp, e - fp.length)) := by
+  by_cases hc : (ip.isEmpty && fp.isEmpty) = true
+  · simp only [hc, if_true, Option.map_none]
+  · simp only [hc]
+    cases parseExp r2 <;> rfl
+
+/-- `parseNumber` is the value of the parts: mantissa · 10^exponent. -/
+theorem parseNumber_eq_parts (cs : List Char) :
+    parseNumber cs = (parseNumberParts cs).map fun p => (natOfDigits p.1 : Rat) * pow10Rat p.2 := by
+  rw [parseNumber_unfold]
+  unfold parseNumberParts
+  exact parts_aux _ _ _
+
+theorem parseNumber_zero_mantissa (cs ds : List Char) (e : Int) (h : parseNumberParts cs = some (ds, e))
+    (h0 : natOfDigits ds = 0) : parseNumber cs = some 0 := by
+  rw [parseNumber_eq_parts, h]
+  simp [h0]
+
+/-- Outside the two clamped branches `parseF64Fast` *is* `parseF64Str`, for every rounding. -/
+theorem parseF64Fast_eq (sem : FloatSem) (cs : List Char)
+    (h : ∀ ds e, parseNumberParts (splitSign cs).2 = some (ds, e) →
+      natOfDigits ds = 0 ∨ (e < 400 ∧ -400 < e + (ds.length : Int))) :
+    parseF64Fast sem cs = parseF64Str sem cs := by
+  unfold parseF64Fast parseF64Str
+  split
+  · rfl
+  · simp only []
+    rw [parseNumber_eq_parts]
+    cases hp : parseNumberParts (splitSign cs).2 with
+    | none => rfl
+    | some p =>
+      obtain ⟨ds, e⟩ := p
+      by_cases h0 : natOfDigits ds = 0
+      · simp only [Option.map_some, h0, if_true]
+        simp
+      · rcases h ds e hp with hz | ⟨h1, h2⟩
+        · exact absurd hz h0
+        · have h1' : ¬ (400 : Int) ≤ e := by omega
+          have h2' : ¬ e + (ds.length : Int) ≤ -400 := by omega
+          simp only [Option.map_some, h0, h1', h2', if_false]
+
 end BarterModel.ExStream
